@@ -345,8 +345,40 @@ def run(ck):
     # ---- R7: a backup is what the rollback restores - mode and existence included (shared with C04-R1) ----------------------------------
     from .c18 import ck_alias
     c04.r1_fields_restored(ck_alias(ck, "C08-R7"))
+    r9_backup_is_written_afresh(ck)
     # the undo re-inserts the hunk's own lines; that restores the file only because a hunk is placed solely where the file's lines
     # equal them byte for byte (the comparison of the trial, C02-R4) - a backup is the rolled-back state; it equals the pre-patch file only if that holds
     from . import c02 as _c02
     from .c18 import ck_alias as _alias
     _c02.r4(_alias(ck, "C08-R8"))
+
+
+def r9_backup_is_written_afresh(ck, rule="C08-R9"):
+    """A backup file can be written more than once in a push (a patch with several sections for one file: the state before the first
+    section is written last, over the intermediate ones) and can be left over from an earlier push.  Its content is the new content
+    only if the file is emptied when it is opened: `File::create`, or an OpenOptions chain with truncate(true) / create_new(true)."""
+    from ..common import open_chain_flags
+    prog = ck.prog
+    sb = ck.anchor("rapidquilt::apply::common::save_backup_file")
+    if sb is None:
+        return
+    n = 0
+    for fn in [sb] + prog.closures_of(sb):
+        for bb, t in fn.calls():
+            rp = callee_of(t).get("rpath") or ""
+            if fn.blocks[bb]["cleanup"]:
+                continue
+            if rp in ("std::fs::File::create", "std::fs::File::create_new", "std::fs::write"):
+                n += 1
+                ck.ok(rule, "%s in %s" % (rp.split("::")[-1], fn.id.split("::")[-1]), "empties / creates the file", fn.where(t))
+            elif rp == "std::fs::OpenOptions::open":
+                n += 1
+                d = open_chain_flags(fn, t)
+                good = d is not None and (d.get("truncate") == [1] or d.get("create_new") == [1])
+                ck.require(good, rule, "OpenOptions::open in %s" % fn.id.split("::")[-1],
+                           "the backup file is opened for writing with %s - neither truncate(true) nor create_new(true): when it exists already "
+                           "(written for a later section of the same patch, or left by an earlier push) and the new content is shorter, the old "
+                           "tail stays" % (sorted(d) if d else "an option chain that cannot be followed"), fn.where(t), ok_detail="truncating open")
+            elif rp in ("std::fs::File::options", "std::fs::File::open"):
+                pass
+    ck.floor(rule, "places where a backup file is opened for writing", n, 1)
